@@ -28,3 +28,4 @@ else git -C /repo worktree remove --force "$R"; fi
 /venv/bin/python /verif/tools/translate_ts_summary.py /repo /verif/coq/theories >/dev/null 2>&1 || true
 /venv/bin/python /verif/tools/translate_ts_extend.py /repo /verif/coq/theories >/dev/null 2>&1 || true
 /venv/bin/python /verif/tools/translate_mutators.py /repo /verif/coq/theories >/dev/null 2>&1 || true
+/venv/bin/python /verif/tools/translate_add_edge.py /repo /verif/coq/theories >/dev/null 2>&1 || true
